@@ -505,8 +505,10 @@ class World:
         self.selectors: List[Any] = []
         self.rr = 0
         self.change_seq = 0
+        self.in_actor = False
         self.long_tasks: List[Tuple[str, Any]] = []
         self.fault_hosts: set = set()
+        self.select_hook: Optional[Callable[[Any], None]] = None
         self.shuffle_ready = False
         self.task_seq = 0
         self.pipe_seq = 0
@@ -632,6 +634,8 @@ class World:
             c = self.current
             if c is not None and not c.is_driver:
                 raise SimAbort()
+        if self.in_actor:
+            return
         self.now += SYSCALL_COST
         if self.preempt_p and (self.actors or len(self.threads) > 1):
             c = self.current
@@ -724,7 +728,11 @@ class World:
                 ent = en[0]
             if isinstance(ent, Actor):
                 self.ev(ent.name, 'step', '')
-                ent.step()
+                self.in_actor = True
+                try:
+                    ent.step()
+                finally:
+                    self.in_actor = False
                 continue
             return ent
 
@@ -734,6 +742,8 @@ class World:
         held (or pure yield), False on timeout."""
         me = self.current
         assert me is not None
+        if self.in_actor:
+            raise HarnessError('actor step tried to block (%s)' % what)
         if self.aborting and not me.is_driver:
             raise SimAbort()
         if cond is None and timeout is None:
